@@ -23,7 +23,7 @@ fn seq<T: Copy>(alpha: &[T], mut i: u64) -> Vec<T> {
 fn seq_count(n: u64, maxlen: u32) -> u64 { (0..=maxlen).map(|l| n.pow(l)).sum() }
 
 #[derive(Clone)]
-struct Case { irq: Option<u64>, trap: Trap, word: u16, r0_low: u8, string_words: Vec<u16>, expected_out: Vec<u8>, kb: Vec<u8>, regset: usize, cc: usize, real: bool, ignore_priv: bool }
+struct Case { poison: u8, irq: Option<u64>, trap: Trap, word: u16, r0_low: u8, string_words: Vec<u16>, expected_out: Vec<u8>, kb: Vec<u8>, regset: usize, cc: usize, real: bool, ignore_priv: bool }
 
 const ISR_AT: u16 = 0x1F00;
 fn run_case(c: &Case) -> Result<u64, (String, String)> {
@@ -46,6 +46,9 @@ fn run_case(c: &Case) -> Result<u64, (String, String)> {
     }
     let mut p = build(&m);
     if let Some(i) = c.irq { p.add_source(0x90, 4, vec![i]); }
+    // a front-end thread died earlier while holding a buffer lock: the lock is poisoned but free, the devices must keep working
+    if c.poison & 1 != 0 { poison_rwlock(&p.kb.get_buffer()); what += " [keyboard lock poisoned]"; }
+    if c.poison & 2 != 0 { poison_rwlock(&p.disp.get_buffer()); what += " [display lock poisoned]"; }
     let regs0: Vec<u16> = (0..8).map(|i| p.sim.reg_file[reg(i)].get()).collect();
     let mem0: Vec<u16> = (0x3000..0xFE00u16).map(|a| p.sim.mem[a].get()).collect();
     // run until the instruction after the trap is about to execute (PC = x3001 in user mode) or the machine stops
@@ -55,14 +58,14 @@ fn run_case(c: &Case) -> Result<u64, (String, String)> {
         let before = (p.sim.pc, p.sim.instructions_run);
         match catch(|| p.sim.step_in()) { Ok(Ok(())) => {}, Ok(Err(e)) => return Err(("trap-errors".into(), format!("{what}: {e:?} at pc x{:04X}", p.sim.prefetch_pc()))), Err(m) => return Err((format!("panic:{}", panic_site(&m)), format!("{what}: {m}"))) }
         steps += 1;
-        if c.irq.is_some() && p.sim.instructions_run == before.1 && p.sim.pc == ISR_AT { p.sources[0].state.lock().unwrap().pending = 0; } // request taken
+        if c.irq.is_some() && p.sim.instructions_run == before.1 && p.sim.pc == ISR_AT { p.sources[0].state.lock().unwrap_or_else(|e| e.into_inner()).pending = 0; } // request taken
         if p.sim.pc == 0x3001 && !p.sim.psr().privileged() { break; }
         if (p.sim.pc, p.sim.instructions_run) == before { stopped = true; break; } // virtual HALT parks the machine
         if c.real && !p.sim.mcr().load(std::sync::atomic::Ordering::Relaxed) && c.trap == Trap::Halt && steps > 3 { stopped = true; break; }
         if steps > 20_000 { return Err(("trap-does-not-return".into(), format!("{what}: no return after {steps} steps (pc x{:04X})", p.sim.pc))); }
     }
-    let disp: Vec<u8> = { let g = p.disp.get_buffer().read().unwrap(); g.clone() };
-    let kb_left: Vec<u8> = p.kb.get_buffer().read().unwrap().iter().copied().collect();
+    let disp: Vec<u8> = { let g = p.disp.get_buffer().read().unwrap_or_else(|e| e.into_inner()); g.clone() };
+    let kb_left: Vec<u8> = p.kb.get_buffer().read().unwrap_or_else(|e| e.into_inner()).iter().copied().collect();
     if c.trap == Trap::Halt {
         if !stopped { return Err(("halt-does-not-stop".into(), format!("{what}: execution continued past HALT"))); }
         return Ok(steps);
@@ -90,28 +93,28 @@ fn cases(ctx: &Ctx) -> Vec<Case> {
         if ignore_priv && regset != 0 && cc != 1 { continue; }
         // GETC / IN: every non-empty queue of length <=3
         for qi in 1..kq { let kb = seq(&KB_SYM, qi);
-            v.push(Case { irq: None, trap: Trap::Getc, word: 0xF020, r0_low: 0, string_words: vec![], expected_out: vec![], kb: kb.clone(), regset, cc, real, ignore_priv });
+            v.push(Case { poison: 0, irq: None, trap: Trap::Getc, word: 0xF020, r0_low: 0, string_words: vec![], expected_out: vec![], kb: kb.clone(), regset, cc, real, ignore_priv });
             let mut out = prompt.clone(); out.push(kb[0]);
-            v.push(Case { irq: None, trap: Trap::In, word: 0xF023, r0_low: 0, string_words: vec![], expected_out: out, kb, regset, cc, real, ignore_priv });
+            v.push(Case { poison: 0, irq: None, trap: Trap::In, word: 0xF023, r0_low: 0, string_words: vec![], expected_out: out, kb, regset, cc, real, ignore_priv });
         }
         // OUT / PUTC: every low byte of a boundary set, with queued input that must stay untouched
         for b in [0x00u8, 0x01, 0x41, 0x7F, 0x80, 0xFF] { for kb in [vec![], vec![0x41u8, 0xFF]] {
-            v.push(Case { irq: None, trap: Trap::Out, word: 0xF021, r0_low: b, string_words: vec![], expected_out: vec![b], kb, regset, cc, real, ignore_priv });
+            v.push(Case { poison: 0, irq: None, trap: Trap::Out, word: 0xF021, r0_low: b, string_words: vec![], expected_out: vec![b], kb, regset, cc, real, ignore_priv });
         } }
         // PUTS: every string of <=3 (thorough 4) symbols
         for si in 0..seq_count(5, ctx.pick(3, 4)) { let s = seq(&PUTS_SYM, si);
-            v.push(Case { irq: None, trap: Trap::Puts, word: 0xF022, r0_low: 0, expected_out: s.iter().map(|w| *w as u8).collect(), string_words: s, kb: vec![0x41], regset, cc, real, ignore_priv });
+            v.push(Case { poison: 0, irq: None, trap: Trap::Puts, word: 0xF022, r0_low: 0, expected_out: s.iter().map(|w| *w as u8).collect(), string_words: s, kb: vec![0x41], regset, cc, real, ignore_priv });
         }
         // PUTSP: every byte string of <=4 (thorough 5) symbols, packed low byte first
         for si in 0..seq_count(4, ctx.pick(4, 5)) { let b = seq(&PUTSP_SYM, si);
             let words: Vec<u16> = b.chunks(2).map(|c| c[0] as u16 | (c.get(1).copied().unwrap_or(0) as u16) << 8).collect();
-            v.push(Case { irq: None, trap: Trap::Putsp, word: 0xF024, r0_low: 0, expected_out: b.clone(), string_words: words, kb: vec![], regset, cc, real, ignore_priv });
+            v.push(Case { poison: 0, irq: None, trap: Trap::Putsp, word: 0xF024, r0_low: 0, expected_out: b.clone(), string_words: words, kb: vec![], regset, cc, real, ignore_priv });
         }
         // PUTSP with a zero byte inside a word (high byte zero ends the string; low byte zero ends it before the high byte)
         for w in [0x0041u16, 0x4100, 0x0000] { let exp: Vec<u8> = if w & 0xFF == 0 { vec![] } else { vec![w as u8] };
-            v.push(Case { irq: None, trap: Trap::Putsp, word: 0xF024, r0_low: 0, expected_out: exp, string_words: vec![w, 0x4242], kb: vec![], regset, cc, real, ignore_priv });
+            v.push(Case { poison: 0, irq: None, trap: Trap::Putsp, word: 0xF024, r0_low: 0, expected_out: exp, string_words: vec![w, 0x4242], kb: vec![], regset, cc, real, ignore_priv });
         }
-        v.push(Case { irq: None, trap: Trap::Halt, word: 0xF025, r0_low: 0, string_words: vec![], expected_out: vec![], kb: vec![0x41], regset, cc, real, ignore_priv });
+        v.push(Case { poison: 0, irq: None, trap: Trap::Halt, word: 0xF025, r0_low: 0, string_words: vec![], expected_out: vec![], kb: vec![0x41], regset, cc, real, ignore_priv });
     } } }
     // the same contracts with one interrupt taken at every instruction boundary of the call (the OS routines share the supervisor
     // stack with interrupt entry and the ISR): quick: regs#0, cc Z, short arguments; thorough: every regset
@@ -121,17 +124,18 @@ fn cases(ctx: &Ctx) -> Vec<Case> {
         if !short || c.ignore_priv || c.cc != 1 || (c.regset != 0 && !ctx.thorough()) { continue; }
         let Ok(n) = run_case(c) else { continue };
         for i in 0..n { let mut d = c.clone(); d.irq = Some(i); w.push(d); }
+        if c.regset == 0 { for poison in 1..=3u8 { let mut d = c.clone(); d.poison = poison; w.push(d); } }
     }
     v.extend(w);
     v
 }
 
 pub fn run(ctx: &Ctx) -> Report {
-    let mut rep = Report::new("each of GETC, OUT/PUTC, PUTS, IN, PUTSP, HALT called from user code at x3000 under virtual and real traps, with and without ignore_privilege (the caller stays in user mode) x 3 register presets x 3 condition codes; GETC/IN: every keyboard queue of length 1-3 over {x00,x41,xFF}; OUT: 6 boundary bytes with and without queued input; PUTS: every string of <=3 (thorough 4) words over {x0041,x00FF,x0001,x0180,x4100}; PUTSP: every byte string of <=4 (thorough 5) over {x01,x41,x80,xFF} packed (odd and even lengths) plus zero-byte-inside-word cases. Oracle: display bytes, R0, input consumed, every other register, PSR (CC, privilege, priority) and all of user memory x3000-xFDFF; HALT stops; (S) the short-argument calls again with one priority-4 interrupt (ISR pushing and popping two registers on the supervisor stack) taken at every instruction boundary of the call, same contract; the IN prompt is read from the OS image's symbol table. non-trivial = every case");
+    let mut rep = Report::new("each of GETC, OUT/PUTC, PUTS, IN, PUTSP, HALT called from user code at x3000 under virtual and real traps, with and without ignore_privilege (the caller stays in user mode) x 3 register presets x 3 condition codes; GETC/IN: every keyboard queue of length 1-3 over {x00,x41,xFF}; OUT: 6 boundary bytes with and without queued input; PUTS: every string of <=3 (thorough 4) words over {x0041,x00FF,x0001,x0180,x4100}; PUTSP: every byte string of <=4 (thorough 5) over {x01,x41,x80,xFF} packed (odd and even lengths) plus zero-byte-inside-word cases. Oracle: display bytes, R0, input consumed, every other register, PSR (CC, privilege, priority) and all of user memory x3000-xFDFF; HALT stops; (S) the short-argument calls again with one priority-4 interrupt (ISR pushing and popping two registers on the supervisor stack) taken at every instruction boundary of the call, same contract; the short-argument calls also with the keyboard and/or display buffer lock poisoned beforehand (a front-end thread died holding it); the IN prompt is read from the OS image's symbol table. non-trivial = every case");
     let cs = cases(ctx);
     let r = sweep(ctx, cs.len() as u64, 4, |i, acc| {
         let c = &cs[i as usize];
-        acc.evals += 1; acc.transitions += 30; acc.traces += 1; acc.nontrivial += 1; acc.count(&format!("{:?}", c.trap), 1); if c.irq.is_some() { acc.count("with_interrupt", 1); }
+        acc.evals += 1; acc.transitions += 30; acc.traces += 1; acc.nontrivial += 1; acc.count(&format!("{:?}", c.trap), 1); if c.irq.is_some() { acc.count("with_interrupt", 1); } if c.poison != 0 { acc.count("with_poisoned_lock", 1); }
         acc.outcomes.insert(fnv(&c.expected_out) ^ c.trap as u64);
         acc.sample(i, ctx.seed, 501, || format!("{:?} real={} string {:x?} keyboard {:x?}", c.trap, c.real, c.string_words, c.kb));
         if let Err((sig, d)) = run_case(c) { acc.violation(sig, i.to_string() + if ctx.thorough() { ":t" } else { ":q" }, d); }
